@@ -38,6 +38,12 @@ def run(tier):
                 recs = tc.roundtrip_records(us[i:i + B], [sec])
                 traces.append({"id": tid, "recs": recs})
                 nrec += len(recs)
+    # (a') the same through the writer's channel-data path, end to end (pre-1904 seconds included)
+    wus = [4146, 493, 986, 999999, 1, 500000, 0, 123457] + [(seed * 31 + j * 7919) % 10 ** 6 for j in range(120)]
+    tid += 1
+    recs = tc.writer_channel_records(wus, [3 * 10 ** 9 + seed, -5, -3 * 10 ** 8, 0])
+    traces.append({"id": tid, "recs": recs})
+    nrec += len(recs)
     # (b) conversions at every resolution
     for res, S in tc.UNITS.items():
         ks = [0, 1, 2, S // 2, S - 1, S - 2, S // 3] + [(seed * 7919 + j * 104729) % S for j in range(40 if tier == "quick" else 400)]
